@@ -63,8 +63,15 @@ func NewDisk() *Disk {
 
 var disk *Disk
 
-// AttachDisk makes BoltOpened route bbolt files through d (nil detaches).
+// AttachDisk makes BoltOpened route bbolt files through d (nil detaches). Harness state:
+// kept out of the race detector's view (a writer goroutine that hung is abandoned, and
+// detaching afterwards must not look like a race of the code under test).
+//
+//go:norace
 func AttachDisk(d *Disk) { disk = d }
+
+//go:norace
+func currentDisk() *Disk { return disk }
 
 func errOf(kind string) error {
 	switch kind {
@@ -79,7 +86,7 @@ func errOf(kind string) error {
 
 // BoltOpened wraps every bbolt.Open call of the instrumented copy (and of the harness).
 func BoltOpened(db *bbolt.DB, err error) (*bbolt.DB, error) {
-	d := disk
+	d := currentDisk()
 	if d == nil || err != nil || db == nil {
 		return db, err
 	}
